@@ -24,13 +24,14 @@ PROPS = {
         "scale": {"asan": 0.1},
         "rule": ("cases: all 16384 (method,class) pairs; every ordinary attribute kind x boundary size "
                  "classes x all 8 tails; random attribute sequences (quick <=12, thorough <=40 attributes); "
+                 "very long lists (255 ... 5000 attributes of 1-3 alternating kinds, up to 64,000 bytes); "
                  "large blobs. Oracle: the generated logical message; tail values re-computed by the "
                  "reference HMAC/CRC. Non-trivial = at least one attribute and encoding succeeded; "
                  "distinct = 64-bit hash of the encoded bytes."),
         "assumptions": [STABLE,
                         "REALM/NONCE values are whatever the library constructor stores for a generated "
                         "quoted-string candidate (constructor rejections are not counted as violations)"],
-        "min_counters": {"types.pairs": 16384},
+        "min_counters": {"types.pairs": 16384, "many-attributes.messages": 30},
         "exhaustive_all": False,
     },
     "C02": {
